@@ -1,9 +1,10 @@
 (* Props/C06.v — the flux-sector solver reaches every target sector up to the parity obstruction.
    Only the property theorems; proofs in Proofs/FluxSolverFacts.v, ChainFlipFacts.v, AnsatzFacts.v.
 
-   NOT covered by a theorem here (S/K only, see harness/c06.py): that the implementation's greedy pairing and
-   A* path search meet the two oracle contracts (checked on every run on the captured values; the A* part is
-   C11's), non-mutation of the arguments (the model is functional; observed by fingerprints), dtype of the
+   NOT covered by a theorem here (S/K only, see harness/c06.py): that the implementation's float A* path search
+   meets the path contract (checked on every run on the captured paths; proved for the A* MODEL:
+   C06_astar_oracle_contract; the greedy pairing is modelled as coded and PROVED to meet the pairing contract
+   for every admissible choice oracle: C06_greedy_pairing_ok, C06_solver_contract_greedy, at the end of this file), non-mutation of the arguments (the model is functional; observed by fingerprints), dtype of the
    result, make_amorphous (Voronoi + SAT colouring + RNG: shell) beyond the ansatz table. *)
 From Coq Require Import List ZArith Bool Arith.
 From Koala Require Import Model.AStar Model.FluxSolver Gen.AnsatzGen
